@@ -11,6 +11,47 @@ from sem import gen as G
 from sem import variants as V
 
 
+def corpus_stream(ck, q):
+    """the upstream corpus (every run() call of the upstream tests, harvested not executed): each call is replayed as
+    recorded and with the rows and columns of every CSV input shuffled; results compared as sets."""
+    import shutil
+    import tempfile
+    import corpus
+    out = tempfile.mkdtemp(prefix='verif_corpus_')
+    try:
+        n, tail = corpus.harvest(out, ['ReferenceManual', 'Additional'] if q else None)
+        recs = corpus.load(out)
+        ck.rng.shuffle(recs)
+        if q:
+            recs = recs[:100]
+        jobs = []
+        for r in recs:
+            jobs.append((r, {'rop': False}))
+            jobs.append((r, {'rop': False, 'perm_seed': ck.rng.randrange(1 << 30)}))
+        outs = corpus.run_calls(jobs)
+        hist = {}
+        for k, r in enumerate(recs):
+            base, perm = outs[2 * k], outs[2 * k + 1]
+            hist[base[0]] = hist.get(base[0], 0) + 1
+            if base[0] in ('timeout', 'skip', 'raw') or perm[0] in ('timeout', 'skip'):
+                ck.count(None, nontrivial=False)
+                continue
+            script = str(r.get('script'))
+            if 'current_date' in script or 'random' in script:
+                continue
+            nontrivial = base[0] == 'ok' and any((x[0] == 'ds' and x[2]) for x in base[1].values())
+            ck.count(('corpus', r['id']), nontrivial=nontrivial, n=2)
+            ok, why = V.same_result(base, perm)
+            if not ok:
+                ck.violation('corpus:permutation-changes-result:%s' % (r['test'].split('::')[0].split('/')[-2] if '/' in r['test'] else '?'),
+                             {'corpus_call': r, 'why': why, 'base': str(base)[:600], 'permuted': str(perm)[:600]},
+                             'corpus script %s: shuffled CSV rows/columns change the result: %s' % (script[:100], why))
+        ck.note('corpus_calls_harvested', n)
+        ck.note('corpus_outcomes', hist)
+    finally:
+        shutil.rmtree(out, ignore_errors=True)
+
+
 def main(ck):
     pr = ck.proof('C33', extra_modules=('VtlModel.Props.C10',))
     q = ck.quick()
@@ -57,6 +98,7 @@ def main(ck):
                                    'variant': var, 'base': str(ref)[:800], 'permuted': str(v)[:800], 'why': why},
                              'permuting input rows/columns (%s form) changed the result of %s: %s' % (var.get('form'), c['vtl'][:120], why))
                 break
+    corpus_stream(ck, q)
     ck.note('outcomes', hist)
     ck.cov['rule'] = ('case = (script, data); each case is run once as given and %d times with permuted rows + shuffled columns (DataFrame and CSV); '
                       'non-trivial = base run returns a non-empty dataset; distinct by (script, data)' % nperm)
